@@ -6,6 +6,8 @@
 // alongside and must agree with it).
 #pragma once
 #include "c02_flat.hpp"
+#include "long_history.hpp"
+#include <numeric>
 #include <utility>
 
 namespace c02
@@ -291,6 +293,92 @@ namespace c02
         large_map_lookup(variant, op, *m, r, 45);
         delete m;
         mc::outcome(mc::fmt("%d/%d/%zu", len, pat, r.size()));
+    }
+
+    // ------------------------------------------------------------------ long histories
+    // (1) the BFS model's alphabet walked for many steps on the same map(s); (2) one map driven through
+    // insert / operator[] / emplace / at over 300 keys in descending and stride-shuffled order, growing past
+    // 33, 64 and 256 entries again and again (clear() when full), compared with std::map at every step.
+    template <class Map, class StdRef, class Cmp> void map_long_history_body(const string &variant)
+    {
+        int c = mc::choose(2 * 3);
+        static const int seeds[3] = {1, 5, 11};
+        int steps = mc::thorough() ? 300000 : 70000, seed = seeds[c % 3];
+        mc::describe("%s: %s, stride seed %d, %d operations on the same map", variant.c_str(), c / 3 ? "300-key history" : "BFS alphabet", seed, steps);
+        mc::nontrivial();
+        if (c / 3 == 0)
+        {
+            MapModel<Map, StdRef, Cmp> m(variant, 2, 3, true);
+            lh::long_history(m, "C02." + variant, steps, seed);
+            return;
+        }
+        const int NKEYS = large_nkeys<Cmp>();
+        int stride = 7 * seed;
+        while (std::gcd(stride, NKEYS) != 1)
+            stride++;
+        Map m;
+        RefMapT<Cmp> r;
+        StdRef s;
+        string op = "long_history";
+        mc::crash_context("C02.%s.large.long_history.crash", variant.c_str());
+        for (int i = 0, k = NKEYS - 1; i < steps; i++)
+        {
+            k = (i / NKEYS) % 2 ? (int)(((long)k + stride) % NKEYS) : (k + NKEYS - 1) % NKEYS; // descending rounds, shuffled rounds
+            int v = i % 1000;
+            auto *e = r.find(k);
+            switch (i % 5)
+            {
+            case 0:
+                m.insert(typename Map::value_type(k, v));
+                r.insert(k, v);
+                s.insert(k, v);
+                break;
+            case 1:
+                m[k] = v;
+                r.index(k) = v;
+                s.set(k, v);
+                break;
+            case 2:
+                m.emplace(k, v);
+                r.insert(k, v);
+                s.insert(k, v);
+                break;
+            case 3:
+                if (e)
+                {
+                    m.at(k) = v;
+                    e->second = v;
+                    s.set(k, v);
+                }
+                break;
+            default:
+                break; // lookup only
+            }
+            e = r.find(k);
+            const Map &cm = m;
+            auto it = cm.find(k);
+            if ((size_t)m.size() != r.size() || cm.count(k) != (e ? 1u : 0u) || (it != cm.end()) != (e != nullptr) || (e && (it->second != e->second || it->first != e->first)))
+            {
+                fbad(variant, op, "lookup", mc::fmt("after %d operations on one map (%zu entries): size/count/find of key %d disagree with std::map", i + 1, r.size(), k));
+                return;
+            }
+            if ((i & 1023) == 0 || r.size() == 33 || r.size() == 64 || r.size() == 256)
+            {
+                if (!large_map_lookup(variant, op, m, r, NKEYS))
+                    return;
+                mc::tick();
+            }
+            if ((int)r.size() >= (std::is_same<Cmp, HalfLess>::value ? NKEYS / 2 : NKEYS) && i % 3 == 0)
+            {
+                m.clear();
+                r.clear();
+                s.clear();
+            }
+        }
+        if (!s.agrees(r))
+            mc::harness_error("RefMap and std::map disagree in %s", variant.c_str());
+        mc::more_cases(steps, steps);
+        mc::outcome(mc::fmt("%zu", r.size()));
     }
 
     // ------------------------------------------------------------------ a key whose == is finer than its <
